@@ -14,7 +14,7 @@ CHECKS = {
         'every node, every argument form and both flags: the factory succeeds and get_parents/children/ancestors/descendants return, each node exactly once, '
         'exactly the is_a objects/subjects resp. the nodes reachable over >= 1 is_a edges up/down (clos_trans), and include_source adds the source exactly once '
         'and nothing else. The stack DFS and deque BFS are instances of one worklist theorem proved for any pop policy. Correspondence: all 542 acyclic edge sets '
-        'on 4 positions x 2 label pools + random shape families (30% with edges listed again anywhere in the list), dense graphs with > 255 edges, 3 real factories, every node/query/flag as TermId and once more in another argument form (CURIE with ':' or '_', identified object, user-defined TermId subclass); plus a scale probe (~70 000 edges) compared directly with the closure.',
+        'on 4 positions x 2 label pools + random shape families (30% with edges listed again anywhere in the list), dense graphs with > 255 edges, 3 real factories, every node/query/flag as TermId and once more in another argument form (CURIE with either delimiter, identified object, user-defined TermId subclass); plus a scale probe (~70 000 edges) compared directly with the closure.',
         'Trusted: Coq kernel + vm_compute; numpy arrays, dict/bisect lookup, deque/list buffers, generator laziness modelled functionally; TermId nodes '
         'represented by (prefix,id) keys (C04). Hypothesis: owl:Thing is not itself an input term. The model contains the de-duplication of repeated edges '
         'introduced by the fix: commit 8229d06.',
